@@ -21,13 +21,19 @@
 #define VASSUME(e) __CPROVER_assume(e)
 /* canary: must FAIL in every harness (proves the post-state of the call is reachable,
  * i.e. the preconditions are satisfiable and the function returns) */
+#ifdef NO_CANARY
+#define CANARY() ((void)0)
+#else
 #define CANARY() __CPROVER_assert(0, "CANARY reachable post-state (expected to fail)")
+#endif
 #else
 #include <assert.h>
 #define sonic_assert(e) assert(e)
 #endif
 
 #define SONICJSON_PADDING 64
+/* production build flags of both x86 targets (-march=haswell / westmere + -mpclmul) */
+#define __PCLMUL__ 1
 
 /* SonicError values (checked against /repo/include/sonic/error.h by slice.py on every run) */
 #include "gen/error_enum.inc"
